@@ -139,6 +139,17 @@ pub fn panic_catcher_set_hook() {
     if PANIC_CATCHER_HOOK_SET.load(Ordering::SeqCst) {
         return;
     }
+    #[cfg(feature = "verif")]
+    {
+        crate::verif::point(crate::verif::Site::SetHookBeforeLock);
+        // wait cooperatively: a simulated thread must not block on a real lock
+        while matches!(
+            INSTALL_LOCK.try_lock(),
+            Err(std::sync::TryLockError::WouldBlock)
+        ) {
+            crate::verif::point(crate::verif::Site::SetHookLockWait);
+        }
+    }
     let _guard = INSTALL_LOCK.lock().unwrap_or_else(|e| e.into_inner());
     if PANIC_CATCHER_HOOK_SET.load(Ordering::SeqCst) {
         return;
